@@ -87,6 +87,8 @@ class C13(HistProp):
                               'why': 'blocks obtained from the installed allocator were never handed to the installed free'})
             if l.startswith('SER ') and 'noalloc=1' not in a:
                 fails.append({'input': l, 'expected': 'noalloc=1', 'observed': a[:300], 'why': 'fixed-buffer serialization / size computation called the allocator'})
+        from .common import mapkv_check
+        fails += mapkv_check(ctx) + mapkv_check(ctx, env={'HALLOC': 'arena'})
         return fails[:20]
 
     def env(self):
@@ -100,6 +102,9 @@ class C13(HistProp):
                 self._env = env
                 out += super().replay(ctx, rp)
             return out
+        if l.startswith('MAPKV '):
+            from .common import mapkv_check
+            return [f for f in mapkv_check(ctx) if f['input'] == l]
         for env in (None, {'HALLOC': 'arena'}):
             o, rc, err = core.run_lines(ctx.harness, [l], env=env)
             if rc != 0: return [dict(rp['failure'], observed='aborted rc=%d' % rc)]
